@@ -4,7 +4,7 @@ import json
 import os
 import re
 
-from vlib import sched, sigexec, sigreal
+from vlib import sched, sigexec, sigphase, sigreal, sigthread
 from vlib.sigcheck import (PLANS, SGN, SIGINT, SIGTSTP, TRUSTED, accept_all, analyse, detect_shutdown_form, detect_worker_form, explore_sig,
                            gen_case, offenders, pack, plan_signals, project_sig)
 
@@ -98,6 +98,14 @@ def base_key(case):
 def replay_case(ctx, exe, variant, wform, sform):
     rp = json.load(open(ctx.replay))
     case = (rp.get("case") or {}).get("case") or rp.get("case")
+    if isinstance(rp.get("case"), dict) and rp["case"].get("scenario") and "sigthread" in str(rp["case"].get("harness")):
+        offs, nsc, tdist = sigthread.run(ctx)
+        for sig, what, c in offs:
+            ctx.log("replay: %s %s" % (sig, what))
+            ctx.offender(sig, what, c)
+        if not offs:
+            ctx.log("replay: all %d real-thread scenarios behave as the property says" % nsc)
+        return
     if isinstance(rp.get("case"), dict) and rp["case"].get("scenario"):
         offs, nsc = sigexec.run(ctx)
         for sig, what, c in offs:
@@ -144,7 +152,15 @@ def run(ctx, PROPS, LEVEL):
     cov = {"evaluations": 0, "distinct_nontrivial": 0, "samples": [],
            "rule": "one evaluation = one complete run of the unmodified dsh() (built from the working tree) under the "
                    "controlled scheduler with one schedule that also decides when SIGINT/SIGTSTP are delivered and when "
-                   "the clock ticks.  (a) corpus schedules; (b) exhaustive: state-hashed DFS over ALL schedules x ALL "
+                   "the clock ticks.  (0) the real execcmd.c/pipecmd.c on real children; the real dsh.c on REAL threads and "
+                   "REAL signals (kill(2)) with a gated transport and a settable clock (distribution.real_threads: single "
+                   "^C, ^C ^C and ^C ^Z 0/1/2 s apart, -S, lone ^Z, -b, before the first connection, after the last "
+                   "completion); (a) corpus schedules; (a2) deterministic situations reached by steering the "
+                   "scheduler (distribution.situations): a host in each of the six phases at once with the watchdog or a "
+                   "worker holding either mutex, 0..3 seconds on the clock between the first ^C and a second ^C / ^Z "
+                   "(1 = exactly INTR_TIME), signals around every step of the shutdown tail, each with every signal plan, "
+                   "with and without -b; (a3) ^C then ^C / ^Z with the first at every position and the second at every "
+                   "distance on two tiny configurations; (b) exhaustive: state-hashed DFS over ALL schedules x ALL "
                    "delivery points x clock ticks of tiny configurations (distribution.dfs); (c) every position: for "
                    "each small configuration (N<=3) and base schedule the first signal of each plan (INT, INT-INT, "
                    "INT-TSTP, TSTP; with and without -b) is delivered at EVERY step of the trace, the second at a set of "
@@ -272,8 +288,55 @@ def run(ctx, PROPS, LEVEL):
         newcount[0] += 1
         ctx.offender(sig, what, c)
 
+    # (0b) real threads, real signals, no wall-clock race: the real dsh.c on a gated transport with a settable clock
+    toffs, nts, tdist = sigthread.run(ctx)
+    cov["evaluations"] += nts
+    dist["real_threads"] = tdist
+    for sig, what, c in toffs:
+        newcount[0] += 1
+        ctx.offender(sig, what, c)
+    ctx.log("real threads and signals (gated transport): %d scenarios, %d not ok" %
+            (nts, sum(1 for v in tdist.values() if v != "ok")))
+
     # (a) corpus
     consume(sched.run_many(exe_san, corpus_cases(), ctx.scratch), "corpus")
+
+    # (a2) deterministic situations (vlib/sigphase.py): a host in each phase / a mutex held by the watchdog or a worker /
+    #      the INTR_TIME boundary on the clock / the shutdown tail; the schedules are found by steering, not by chance
+    dist["situations"] = {}
+    pcs, prep = sigphase.phase_cases(exe, ctx.scratch, rng)
+    for k, v in prep.items():
+        dist["situations"][k] = v
+        if v == "unreachable":
+            # not an error by itself (a tree without the watchdog repair has no `cancel G`); what the tree does instead is
+            # judged by the runs that do happen
+            ctx.notes.append("situation `%s` not reachable by steering the scheduler in this tree" % k)
+    byplan = {}
+    for c in pcs:
+        byplan.setdefault(c["_plan"], []).append(c)
+        dist["plans"][c["_plan"]] = dist["plans"].get(c["_plan"], 0) + 1
+        dist["batch"][str(c["opts"]["batch"])] += 1
+    for plan, cs in byplan.items():
+        # half of them under ASan/UBSan
+        consume(sched.run_many(exe_san, cs[0::2], ctx.scratch) + sched.run_many(exe, cs[1::2], ctx.scratch), plan)
+    ctx.log("deterministic situations: %d runs (%s)" % (len(pcs), ", ".join(
+        "%s=%s" % (k, sum(v for kk, v in prep.items() if kk.startswith(k) and v != "unreachable"))
+        for k in ("phases", "boundary", "drain"))))
+
+    # (a3) ^C then ^C / ^Z: the first at every position, the second at every distance
+    if not enough():
+        prs = sigphase.pair_cases(exe, ctx.scratch, rng, ctx.quick())
+        byplan = {}
+        for c in prs:
+            byplan.setdefault(c["_plan"], []).append(c)
+            dist["plans"][c["_plan"]] = dist["plans"].get(c["_plan"], 0) + 1
+            dist["batch"][str(c["opts"]["batch"])] += 1
+            dist["situations"][c["_class"]] = dist["situations"].get(c["_class"], 0) + 1
+        for plan, cs in byplan.items():
+            for i in range(0, len(cs), 1500):
+                if not enough():
+                    consume(sched.run_many(exe, cs[i:i + 1500], ctx.scratch), plan)
+        ctx.log("every pair of positions: %d runs" % len(prs))
 
     # (b) exhaustive DFS: all schedules x all delivery points x ticks
     one = [{"name": "h0", "out": [[1, b"o0-0\n".hex()], [1, "EOF"]]}]
